@@ -8,6 +8,9 @@
 (*   C12.window    - the answer is the answer of some state in the window  *)
 (*                   (this includes isolation: when every state of the     *)
 (*                   window gives the same answer, that answer is demanded)*)
+(*   C12.final     - after two mutator goroutines on disjoint services are *)
+(*                   done, the container answers like a fresh one holding  *)
+(*                   what both histories leave behind (no lost update)     *)
 (*   C12.race      - a report of the Go race detector with a go-restful    *)
 (*                   frame (events added by the driver from GORACE logs)   *)
 (*   C12.deadlock  - a round did not finish (watchdog)                     *)
@@ -29,6 +32,8 @@ Check(line, ev) ==
          /\ IF Len(ev.cands) >= 2 THEN Bump(4) ELSE TRUE
          /\ IF \E i \in 1..Len(ev.cands) : ev.cands[i] = ev.obs THEN TRUE
             ELSE Mis(line, "C12.window", <<ev.key, ev.obs, ev.cands>>)
+    \* two mutators on disjoint services: when both are done nothing may be lost or resurrected
+    [] ev.e = "cfinal" -> Bump(2) /\ (IF ev.obs = ev.want THEN TRUE ELSE Mis(line, "C12.final", <<ev.key, ev.obs, ev.want>>))
     [] ev.e = "crace"  -> Mis(line, "C12.race", ev.frames)
     [] ev.e = "cstuck" -> Mis(line, "C12.deadlock", <<ev.round>>)
     [] ev.e = "cpanic" -> Mis(line, "C12.panic", <<ev.pv>>)
